@@ -115,4 +115,27 @@ theorem C38_seedable_source_repeats (ent : Nat → Nat) (next : Nat → Nat × N
     freshAfterReseed .seedable ent next s w = false := by
   simp [freshAfterReseed, draw, prngDraw, reseed]
 
+open ElaVerif.Entropy in
+/-- **Positive characterisation** (model of the `entropy` ops): what a producer on the OS source
+    produces is a function of the entropy stream and of the read position only — the state of the
+    seedable generator (and anything derived from the clock that seeds it) has no influence. -/
+theorem C38_os_secret_function_of_stream (ent : Nat → Nat) (next next' : Nat → Nat × Nat) (w w' : World)
+    (h : w.taken = w'.taken) :
+    (draw .os ent next w).1 = (draw .os ent next' w').1 := by
+  simp [draw, osDraw, h]
+
+open ElaVerif.Entropy in
+/-- … and every use consumes the stream: the read position advances, so a later use cannot be
+    served from what an earlier one read. -/
+theorem C38_os_use_consumes (ent : Nat → Nat) (next : Nat → Nat × Nat) (w : World) :
+    (draw .os ent next w).2.taken = w.taken + 1 := rfl
+
+open ElaVerif.Entropy in
+/-- a producer on a seedable generator does **not** have this property: same stream, same read
+    position, different generator state ⇒ different secret (witness) -/
+theorem C38_seedable_not_function_of_stream :
+    ∃ (ent : Nat → Nat) (next : Nat → Nat × Nat) (w w' : World), w.taken = w'.taken ∧
+      (draw .seedable ent next w).1 ≠ (draw .seedable ent next w').1 :=
+  ⟨id, fun x => (x, x + 1), ⟨1, 0⟩, ⟨2, 0⟩, rfl, by decide⟩
+
 end ElaVerif.C38
